@@ -235,6 +235,7 @@ fn real_main() {
         "child-c06" => stress::child_c06(&args[2], args[3].parse().unwrap(), args[4].parse().unwrap(), args[5].parse().unwrap(), args[6].parse().unwrap()),
         "child-c20" => stress::child_c20(args[2].parse().unwrap(), args[3].parse().unwrap(), args[4].parse().unwrap()),
         "child-shape" => stress::child_shape(args[2].parse().unwrap()),
+        "child-free" => stress::child_free(args[2].parse().unwrap(), args[3].parse().unwrap()),
         "rc-pairs" => {
             rc_setup();
             // --a / --b : comma separated call names (empty = all); --grace 0|1
@@ -258,9 +259,42 @@ fn real_main() {
             );
             ctl.quit();
         }
+        "debug-free" => {
+            sched::install(rcworld::ev_hook);
+            circ::verif::set_class_mask(0);
+            circ::verif::set_seal_on_defer(true);
+            debug_free();
+        }
+        "rc-free" => {
+            // real threads, no scheduler: what a race inside code without scheduling points looks like at the end
+            sched::install(rcworld::ev_hook);
+            circ::verif::set_class_mask(0);
+            let n: usize = arg(&args, "--n", 2000);
+            let pairs: usize = arg(&args, "--pairs", 40);
+            let rounds: usize = arg(&args, "--rounds", 6);
+            let out = sarg(&args, "--out", "free.ndjson");
+            let mut rows = Vec::new();
+            for i in 0..n {
+                let (objs, mp, md, mf, ord, uaf, leaked) = rcworld::free_run_dag(pairs, rounds);
+                rows.push(format!(
+                    "{{\"fn\":\"free\",\"i\":{},\"objs\":{},\"max_npop\":{},\"max_ndrop\":{},\"max_nfree\":{},\"order_ok\":{},\"uaf\":{},\"leaked\":{}}}",
+                    i, objs, mp, md, mf, ord as u8, uaf as u8, leaked
+                ));
+            }
+            write_out(&out, &rows);
+            println!("{{\"rows\":{},\"file\":{:?},\"kind\":\"free\"}}", rows.len(), out);
+        }
         _ => {
             eprintln!("usage: circ-conf rc-random --seed N --n N --threads N --ops N --vocab V --out FILE");
             std::process::exit(2);
         }
+    }
+}
+#[allow(dead_code)]
+pub fn debug_free() {
+    for i in 0..8 {
+        let e0 = circ::verif::global_epoch();
+        let r = rcworld::free_run_dag(40, 6);
+        println!("iter {} epoch {} -> {} pending {} res {:?}", i, e0, circ::verif::global_epoch(), unsafe { circ::verif::pending_bags() }, r);
     }
 }
